@@ -29,6 +29,8 @@ def build():
         'extend': A(stub=True, ensures=[('appends_in_order', 'final(self)@ == old(self)@ + points_of(byte_codes)')]),
         'into_iter': A(external_body=True, ret='r', ensures=[('yields_the_points_in_order', 'points_of(r) == self@')]),
     })
+    U.extract(C.CE, 'impl CelError', fns={}, others='stub')
+    U.extract(C.CV, 'impl CelValue', fns={}, others='stub')
     d = S.compprog_contracts()
     d['from_children_w_bytecode'] = S.FCWB
     d['append_if_bytecode'] = A(ensures=[('appends_to_code_only', 'node_view(final(self).inner) == (match node_view(old(self).inner) { SNode::Code(s) => SNode::Code(s + points_of(b)), SNode::Const(c) => SNode::Const(c) }) && final(self).details@ == old(self).details@')],
